@@ -353,6 +353,49 @@ def reference_def(name: str, rel: Optional[str] = None):
     return ast.parse(src).body[0] if isinstance(src, str) else None
 
 
+def _creation_facts(defs) -> dict:
+    """defs: iterable of (qualified name, def node).  Names that are `async def` wherever defined; classes whose __init__ only
+    stores parameters / constants into attributes."""
+    is_async: Dict[str, Set[bool]] = {}
+    ctors: Set[str] = set()
+    for q, node in defs:
+        is_async.setdefault(q.rsplit(".", 1)[-1], set()).add(isinstance(node, ast.AsyncFunctionDef))
+        if q.endswith(".__init__") and q.count(".") == 1:
+            params = {a.arg for a in node.args.args}
+            body = [b for b in node.body if not (isinstance(b, ast.Expr) and isinstance(b.value, ast.Constant))]
+            if all(isinstance(b, (ast.Assign, ast.AnnAssign)) and isinstance((b.targets[0] if isinstance(b, ast.Assign) else b.target), ast.Attribute)
+                   and isinstance(b.value, (ast.Name, ast.Constant)) and (not isinstance(b.value, ast.Name) or b.value.id in params) for b in body):
+                ctors.add(q.split(".", 1)[0])
+    return {"async": frozenset(k for k, v in is_async.items() if v == {True}), "ctors": frozenset(ctors)}
+
+
+_ref_creation = None
+_cur_creation = None
+
+
+def _set_creation(side: str):
+    global _ref_creation, _cur_creation
+    from . import normal
+    if side == "ref":
+        if _ref_creation is None:
+            ref = reference()
+            _ref_creation = _creation_facts((k.split("::", 1)[1], ast.parse(r["src"]).body[0]) for k, r in ref.items() if "src" in r)
+        normal.CREATION = _ref_creation
+    else:
+        if _cur_creation is None or _cur_creation[0] is not _cur_sources:
+            defs = []
+            for rel, src in (_cur_sources or {}).items():
+                if not rel.endswith(".py"):
+                    continue
+                try:
+                    t = ast.parse(src)
+                except SyntaxError:
+                    continue
+                defs += functions(t)
+            _cur_creation = (_cur_sources, _creation_facts(defs))
+        normal.CREATION = _cur_creation[1]
+
+
 def _called_names(node) -> Set[str]:
     return {c.func.id for c in ast.walk(node) if isinstance(c, ast.Call) and isinstance(c.func, ast.Name)}
 
@@ -374,6 +417,7 @@ def _ref_nf(key: str, r: dict) -> str:
                 helpers[name] = d
                 if depth < 2:
                     todo += [(n, depth + 1) for n in _called_names(d)]
+        _set_creation("ref")
         _nf_cache[key] = digest(nf(node, signatures(), helpers=helpers, in_class="." in q))
     return _nf_cache[key]
 
@@ -491,8 +535,10 @@ def restore_refactored(tree: ast.Module, relpath: str) -> List[str]:
                 used_helpers.add(lifted)
             continue
         try:
+            ref_d = _ref_nf(key, r)
+            _set_creation("cur")
             cur = digest(nf(node, signatures(), helpers=helpers, in_class=cls is not None))
-            if cur != _ref_nf(key, r):
+            if cur != ref_d:
                 continue
         except Exception:  # the normal form is an optimisation of recognisability: on any trouble the function is analysed as it stands
             continue
